@@ -400,9 +400,16 @@ fn main() {
         return;
     }
     let mutates = |p: &Vec<Op>| p.iter().any(|o| !matches!(o, Op::Subscribe | Op::Peers));
+    // C09: only the models in which some thread subscribes while another changes the peer set
+    // (a subscriber must not miss, nor see twice, a change that races its subscription)
+    let only_subscribe = std::env::args().nth(2).as_deref() == Some("subscribe");
+    let subscribes = |p: &Vec<Op>| p.iter().any(|o| matches!(o, Op::Subscribe));
     for a in &menu {
         for b in &menu {
             if !mutates(a) && !mutates(b) {
+                continue;
+            }
+            if only_subscribe && !(subscribes(a) || subscribes(b)) {
                 continue;
             }
             models += 1;
@@ -416,6 +423,9 @@ fn main() {
         for b in &mutators {
             for o in &observers {
                 if !thorough && o.len() == 2 {
+                    continue;
+                }
+                if only_subscribe && !subscribes(o) {
                     continue;
                 }
                 models += 1;
